@@ -1503,6 +1503,7 @@ class Extracted:
     labels: list[str]  # label id -> stable name
     label_sites: dict[str, list[tuple[str, int]]]  # stable name -> [(file, line)]
     label_attr: dict[str, str]
+    label_kind: dict[str, str]  # stable name -> 'store' | 'mutate'
     violations: list[str]
     reachable: list[str]
     externals: dict[str, int]
@@ -1570,7 +1571,8 @@ def analyse(root: Path) -> Extracted:
     viol = [labels[i] for i in violations(stmts, var_abs, fld_abs)]
     return Extracted(
         stmts=stmts, nvars=nvars, var_abs=var_abs, fld_abs=fld_abs, labels=labels, label_sites=label_sites,
-        label_attr=label_attr, violations=viol, reachable=sorted(q for q, c in tr.ctxs.items() if c.done),
+        label_attr=label_attr, label_kind={labels[st[1]]: st[0] for st in stmts if st[0] in ('store', 'mutate')},
+        violations=viol, reachable=sorted(q for q, c in tr.ctxs.items() if c.done),
         externals=dict(sorted(tr.externals.items())),
         property_uses={k: sorted(v) for k, v in sorted(tr.property_uses.items())},
         set_iterations=tr.set_iterations, dict_iterations=tr.dict_iterations, fields=tr.fields,
